@@ -186,10 +186,11 @@ func (s *Sched) Start(name string, arm []string, fn func()) string {
 		s.mu.Unlock()
 		close(ready)
 		defer func() {
-			if r := recover(); r != nil {
+			r := recover()
+			s.mu.Lock()
+			if r != nil {
 				l.Result = fmt.Sprintf("PANIC: %v", r)
 			}
-			s.mu.Lock()
 			l.done = true
 			delete(s.byGID, gid)
 			s.mu.Unlock()
@@ -227,7 +228,10 @@ func (s *Sched) Await(name string) string {
 	if l == nil {
 		return "no-such-lane"
 	}
-	if l.done && len(l.event) == 0 {
+	s.mu.Lock()
+	finished := l.done
+	s.mu.Unlock()
+	if finished && len(l.event) == 0 {
 		return "done"
 	}
 	return s.wait(l, 0)
@@ -239,8 +243,9 @@ func (s *Sched) Resume(name string, arm []string) string {
 	s.mu.Lock()
 	l := s.lanes[name]
 	if l == nil || l.parked == "" {
+		finished := l != nil && l.done
 		s.mu.Unlock()
-		if l != nil && l.done {
+		if finished {
 			return "done"
 		}
 		return "not-parked"
